@@ -431,12 +431,12 @@ class Engine:
             for kt, vt in it.concrete_items(a[1], n, fr):
                 it.heap.put(sym.py_of_val(kt), sym.r_of(ov.t), vt)
             return NONE
-        if name in OPAQUE_STR:
-            # text manipulation whose value is never used for a decision in the functions under contract: an opaque string
-            return SV(Val.str(it.run.fresh(name.replace('.', '_'), z3.StringSort())))
         op = self.registry.opaque.get(name)
         if op is not None:
             return op(it, a, kw, n, fr) if callable(op) else SV(it.run.fresh(name.replace('.', '_')))
+        if name in OPAQUE_STR:
+            # text manipulation whose value is never used for a decision in the functions under contract: an opaque string
+            return SV(Val.str(it.run.fresh(name.replace('.', '_'), z3.StringSort())))
         it.unsupported(n, f'external/builtin function {name} has no model (declare it opaque or an effect)')
 
     def effect_result(self, it, name, a, kw, n):
